@@ -85,7 +85,11 @@ pub fn generate(run_seed: u64) -> QueueSpec {
         let big = c.pct(10);
         let p = c.range(1, if big { 8 } else { 4 }) as u32;
         let cn = c.range(1, if big { 8 } else { 6 }) as u32;
-        let total = w.range(1, 48) as u32;
+        let (p, cn) = if c.pct(25) { (p.min(2), cn.min(2)) } else { (p, cn) };
+        // a quarter of the structured runs are tiny, so that the whole invoke/return history can
+        // also be fed to the hook-free linearizability search
+        let tiny = c.pct(25);
+        let total = if tiny { w.range(1, 5) as u32 } else { w.range(1, 48) as u32 };
         let mut prod: Vec<Vec<Op>> = (0..p).map(|_| Vec::new()).collect();
         for _ in 0..total {
             let who = w.below(p as u64) as usize;
@@ -323,6 +327,7 @@ pub struct QueueStats {
     pub would_block_with_room: u64,
     pub ill_formed_deadlock: bool,
     pub structured_open_deadlock: bool,
+    pub lin_checked: bool,
     pub steps: u64,
     pub preemptions: u64,
     pub contested: u64,
@@ -385,7 +390,17 @@ pub fn execute_batch(specs: &[QueueSpec]) -> Vec<QueueRun> {
                 tasks: spec.scripts.len() as u32,
                 ..Default::default()
             };
-            let violation = check(spec, &res.world.events, &res.outcome, &mut stats);
+            let mut violation = check(spec, &res.world.events, &res.outcome, &mut stats);
+            if violation.is_none() && !matches!(res.outcome, Outcome::Panic(_) | Outcome::MaxSteps(_)) {
+                match linearizable(spec, &res.world.events) {
+                    Some(Ok(())) => stats.lin_checked = true,
+                    Some(Err(e)) => {
+                        stats.lin_checked = true;
+                        violation = Some(("not-linearizable".into(), e));
+                    }
+                    None => {}
+                }
+            }
             QueueRun { violation, stats, events: res.world.events, choices: res.trace.choices }
         })
         .collect()
@@ -681,4 +696,125 @@ pub fn single_producer_shape(spec: &QueueSpec) -> bool {
         .filter(|sc| sc.iter().any(|op| matches!(op, Op::Push { .. } | Op::TryPush { .. })))
         .count();
     producers == 1
+}
+
+// ------------------------------------------------------------------------------------------
+// Hook-free cross-check: linearizability of the invoke/return history alone (no under-lock
+// records) against the sequential queue model, by exhaustive search over linearisation orders
+// (Wing & Gong style with memoisation). Only histories of at most MAX_LIN_OPS completed
+// operations are checked. Guards against a hook placed wrongly.
+
+pub const MAX_LIN_OPS: usize = 18;
+
+#[derive(Clone, Debug)]
+struct HOp {
+    inv: u64,
+    ret: u64,
+    code: u64,
+    uid: u32,
+    size: u64,
+    res: u64,
+    val: u64,
+}
+
+pub fn linearizable(spec: &QueueSpec, events: &[Event]) -> Option<Result<(), String>> {
+    use std::collections::{HashMap, HashSet};
+    let cap = spec.cap as u64;
+    let mut prio_of: HashMap<u32, i32> = HashMap::new();
+    for sc in &spec.scripts {
+        for op in sc {
+            if let Op::Push { prio, uid, .. } | Op::TryPush { prio, uid, .. } = op {
+                prio_of.insert(*uid, *prio);
+            }
+        }
+    }
+    let mut open: HashMap<u32, (u64, u64, u32, u64)> = HashMap::new();
+    let mut ops: Vec<HOp> = Vec::new();
+    for e in events {
+        match e.kind {
+            K_INV => {
+                open.insert(e.task, (e.seq, e.a, e.b as u32, e.c));
+            }
+            K_RET => {
+                if let Some((inv, code, uid, size)) = open.remove(&e.task) {
+                    ops.push(HOp { inv, ret: e.seq, code, uid, size, res: e.b, val: e.c });
+                }
+            }
+            _ => {}
+        }
+    }
+    // operations still open at the end (blocked at a deadlock) never took effect
+    if ops.is_empty() || ops.len() > MAX_LIN_OPS {
+        return None;
+    }
+    let n = ops.len();
+    // index of the push that carries each uid
+    let mut push_of: HashMap<u32, usize> = HashMap::new();
+    for (i, o) in ops.iter().enumerate() {
+        if o.code == 1 || o.code == 2 {
+            push_of.insert(o.uid, i);
+        }
+    }
+    // state: bitmask of ops whose item is currently queued, closed flag
+    fn bytes(ops: &[HOp], q: u32) -> u64 {
+        (0..ops.len()).filter(|i| q >> i & 1 == 1).map(|i| ops[i].size).sum()
+    }
+    let mut seen: HashSet<(u32, u32, bool)> = HashSet::new();
+    let mut stack: Vec<(u32, u32, bool)> = vec![(0, 0, false)];
+    let full: u32 = if n == 32 { u32::MAX } else { (1u32 << n) - 1 };
+    while let Some((done, q, closed)) = stack.pop() {
+        if done == full {
+            return Some(Ok(()));
+        }
+        if !seen.insert((done, q, closed)) {
+            continue;
+        }
+        // earliest return among not-done ops
+        let min_ret = (0..n).filter(|i| done >> i & 1 == 0).map(|i| ops[i].ret).min().unwrap();
+        for i in 0..n {
+            if done >> i & 1 == 1 || ops[i].inv > min_ret {
+                continue;
+            }
+            let o = &ops[i];
+            let b = bytes(&ops, q);
+            let count = q.count_ones() as u64;
+            let next: Option<(u32, bool)> = match (o.code, o.res) {
+                (1, R_OK) | (2, R_OK) => {
+                    let oversized_inside = (0..n).any(|j| q >> j & 1 == 1 && ops[j].size > cap);
+                    if !closed && (o.size > cap || oversized_inside || b + o.size <= cap) {
+                        Some((q | 1 << i, closed))
+                    } else {
+                        None
+                    }
+                }
+                (1, R_CLOSED) | (2, R_CLOSED) => if closed { Some((q, closed)) } else { None },
+                (2, R_WOULD_BLOCK) => Some((q, closed)),
+                (3, R_ITEM) | (4, R_ITEM) => {
+                    let uid = o.val as u32;
+                    match push_of.get(&uid) {
+                        Some(&pi) if q >> pi & 1 == 1 => {
+                            let my = *prio_of.get(&uid).unwrap_or(&0);
+                            let maxp = (0..n).filter(|j| q >> j & 1 == 1).map(|j| *prio_of.get(&ops[j].uid).unwrap_or(&0)).max().unwrap();
+                            if my == maxp { Some((q & !(1 << pi), closed)) } else { None }
+                        }
+                        _ => None,
+                    }
+                }
+                (3, R_NONE) => if q == 0 && closed { Some((q, closed)) } else { None },
+                (4, R_NONE) => if q == 0 { Some((q, closed)) } else { None },
+                (5, _) => Some((q, true)),
+                (6, R_VALUE) => if o.val == count { Some((q, closed)) } else { None },
+                (7, R_VALUE) => if o.val == b { Some((q, closed)) } else { None },
+                (8, R_VALUE) => if o.val == closed as u64 { Some((q, closed)) } else { None },
+                _ => None,
+            };
+            if let Some((q2, c2)) = next {
+                stack.push((done | 1 << i, q2, c2));
+            }
+        }
+    }
+    Some(Err(format!(
+        "no linearisation of the {n}-operation invoke/return history is consistent with the sequential queue model (capacity {cap}); operations (invoke seq, return seq, op code, uid, size, result, value): {:?}",
+        ops.iter().map(|o| (o.inv, o.ret, o.code, o.uid, o.size, o.res, o.val)).collect::<Vec<_>>()
+    )))
 }
